@@ -17,7 +17,7 @@ ASSUMPTIONS = []
 
 def plan(tier):
     q = tier == 'quick'
-    return [('options', 90 if q else 1500, {}), ('dedup', 80 if q else 1200, {})]
+    return [('options', 90 if q else 1500, {}), ('dedup', 240 if q else 2400, {})]
 
 
 def search_plan(tier, disagreements):
@@ -141,8 +141,10 @@ def run_case(stream, seed, ctx, params):
         elif m < 0.87:
             from .c08 import coincident_deck
             d = coincident_deck(rng)
-        elif m < 0.94:
+        elif m < 0.92:
             d = tiny_coeff_deck(rng)
+        elif m < 0.96:
+            d = G.contradictory_union_deck(rng)
         else:
             d = neardup_deck(rng)
         sets = rng.sample(all_option_sets(), 3)
@@ -166,7 +168,8 @@ def run_case(stream, seed, ctx, params):
         return out
     else:
         m = rng.random()
-        d = (tori_deck(rng) if m < 0.3 else neardup_deck(rng) if m < 0.6 else tiny_coeff_deck(rng) if m < 0.75
+        d = (tori_deck(rng) if m < 0.25 else neardup_deck(rng) if m < 0.5 else tiny_coeff_deck(rng) if m < 0.62
+             else G.contradictory_union_deck(rng) if m < 0.8
              else __import__('harness.props.c08', fromlist=['x']).coincident_deck(rng))
         args = [] if rng.random() < 0.75 else ['--skip-deduplication']
         return run_deck(ctx, stream, d, args, rng, npts=200, check_model=True)
